@@ -3018,7 +3018,7 @@ class Choice(Set):
 
     def __iter__(self):
         if self._currentIdx is None:
-            raise StopIteration
+            return
         yield self.componentType[self._currentIdx].getName()
 
     # Python dict protocol
